@@ -297,8 +297,12 @@ func (s *C17Spec) expectation(c *Ctx, tape []byte) cliExpect {
 	case "valid", "dups":
 		m := mark()
 		var err error
+		before := hookCalls.words
 		wl, err = spg.NewWordList(append([]string{}, s.Words...))
 		_ = since(m)
+		if err == nil && hookCalls.words == before {
+			panic(sentCannotDrive) // word index order not owned: child and in-process results are not comparable
+		}
 		if err != nil {
 			return cliExpect{exit: 1, why: "word list refused"}
 		}
